@@ -123,14 +123,20 @@ func init() {
 	reg("strings.Index", func(c *CallCtx, a []Value) []Outcome {
 		return ret1(IndexOf(a[0].(*Term), a[1].(*Term), MkI(0)))
 	})
-	reg("strings.Count", func(c *CallCtx, a []Value) []Outcome {
-		s, sub := a[0].(*Term), a[1].(*Term)
+	countFn := func(c *CallCtx, s, sub *Term) []Outcome {
 		if s.IsConst() && sub.IsConst() {
 			return ret1(MkI(int64(strings.Count(s.SV, sub.SV))))
 		}
-		throwf("strings.Count symbolic")
+		if sub.IsConst() && len(sub.SV) == 1 {
+			if pieces, ok := splitConcat(c, s, sub.SV); ok {
+				return ret1(MkI(int64(len(pieces) - 1)))
+			}
+		}
+		throwf("Count on a string whose separator structure is not determined")
 		return nil
-	})
+	}
+	reg("strings.Count", func(c *CallCtx, a []Value) []Outcome { return countFn(c, a[0].(*Term), a[1].(*Term)) })
+	reg("bytes.Count", func(c *CallCtx, a []Value) []Outcome { return countFn(c, a[0].(*BytesV).T, a[1].(*BytesV).T) })
 	reg("strings.TrimSpace", func(c *CallCtx, a []Value) []Outcome {
 		s := a[0].(*Term)
 		if s.IsConst() {
